@@ -40,6 +40,7 @@ type evalModel struct {
 	// belong to the region of their call site(s) and their scope/context/form parameters stand for the arguments.
 	helpers     []*ssa.Function
 	helperSites map[*ssa.Function][]ssa.CallInstruction
+	thin        map[*ssa.Function]*ssa.Call // helpers that only wrap one evaluating call
 }
 
 func newEvalModel(w *World, e *Engine) *evalModel {
@@ -276,7 +277,10 @@ func (m *evalModel) computeHelpers() {
 						continue
 					}
 					c := ci.Common().StaticCallee()
-					if c == nil || c.Pkg != m.EVAL.Pkg || c.Parent() != nil || m.isCore(c) || isStep[c] || len(c.Blocks) == 0 {
+					if c == nil || c.Pkg != m.EVAL.Pkg || m.isCore(c) || isStep[c] || len(c.Blocks) == 0 {
+						continue
+					}
+					if c.Parent() != nil && !calledWhereDefined(ci) {
 						continue
 					}
 					if !m.evalRelevant(c, map[*ssa.Function]bool{}) {
@@ -1160,4 +1164,31 @@ func (m *evalModel) formLeaving(b *ssa.BasicBlock) ssa.Value {
 		return m.formLeaving(b.Preds[0])
 	}
 	return nil
+}
+
+// calledWhereDefined: the call applies a function literal of the enclosing function that is used for nothing
+// but being called (a local helper such as `evalIn := func(form MalType) … { return EVAL(ctx, form, env) }`):
+// not deferred, not started as a goroutine, not stored, returned or passed on. Such a literal is a helper of
+// the evaluator like a named function: its parameters stand for the arguments of its calls, the variables it
+// captures are the enclosing function's.
+func calledWhereDefined(ci ssa.CallInstruction) bool {
+	if _, isCall := ci.(*ssa.Call); !isCall {
+		return false
+	}
+	mc, ok := ci.Common().Value.(*ssa.MakeClosure)
+	if !ok {
+		return false
+	}
+	for _, ref := range *mc.Referrers() {
+		switch u := ref.(type) {
+		case *ssa.DebugRef:
+		case *ssa.Call:
+			if u.Call.Value != ssa.Value(mc) {
+				return false
+			}
+		default:
+			return false
+		}
+	}
+	return true
 }
